@@ -354,6 +354,14 @@ static Family adversary_family(const std::string &tier)
     Cfg c = cfg("1srv-usevc", 1, 2, ARES_FLAG_USEVC);
     f.cfgs.push_back(c);
   }
+  {
+    // non-initial start: the server proved cookie support more than a day ago (the client cookie is due for rotation);
+    // a cookie-less answer is as illegitimate as ever
+    Cfg c            = cfg("1srv-edns-from-proven-a-day-ago", 1, 2, ARES_FLAG_EDNS);
+    c.qcache_max_ttl = 3600;
+    c.preamble       = { { EV_REQ, 0, 0 }, { EV_REPLY, 0, RK_CK_VALID }, { EV_IO, 0, 0 }, { EV_ADVANCE, 86401000, 0 } };
+    f.cfgs.push_back(c);
+  }
   f.reqs       = life_reqs();
   f.req_menu   = { 0, 18 };
   f.req_repeat = true;
